@@ -109,10 +109,13 @@ func c05build(form c05form, k *gen.T, pos string) (*c05dest, error) {
 		gen.Fld("P", "pre", false, canaryArr(8)),
 		gen.Fld("F", "f", false, ft),
 		gen.Fld("Q", "post", false, canaryArr(8)),
+		// an embedded struct whose promoted field has the name of a schema field: the library matches
+		// direct fields only, so "inner_a" must be skipped and Emb must stay untouched
+		&gen.F{Go: "Emb", Embedded: true, T: gen.StructOf(gen.Fld("A", "inner_a", false, gen.Leaf(gen.KInt64)), gen.Fld("B", "f", false, gen.Leaf(gen.KInt64)))},
 		gen.Fld("S", "sibling", false, gen.Leaf(gen.KInt64)),
 		gen.Fld("G1", "guard_post", false, canaryArr(64)),
 	)
-	s, err := refavro.ParseSchema([]byte(`{"type":"record","name":"outer","fields":[{"name":"f","type":` + fs + `}]}`))
+	s, err := refavro.ParseSchema([]byte(`{"type":"record","name":"outer","fields":[{"name":"f","type":` + fs + `},{"name":"inner_a","type":"long"}]}`))
 	if err != nil {
 		return nil, err
 	}
@@ -125,13 +128,14 @@ func c05pat(o uintptr, salt int) byte { return byte((int(o)*7+salt*13)%251 + 1) 
 
 // wrapDatum places the form's datum at the position.
 func c05wrap(pos string, d any, d2 any) any {
+	tail := int64(0x1122334455667788)
 	switch pos {
 	case "slice":
-		return &refavro.Record{Fields: []any{[]any{d, d2}}}
+		return &refavro.Record{Fields: []any{[]any{d, d2}, tail}}
 	case "map":
-		return &refavro.Record{Fields: []any{&refavro.Map{Entries: []refavro.MapEntry{{Key: "k1", Val: d}, {Key: "k2", Val: d2}}}}}
+		return &refavro.Record{Fields: []any{&refavro.Map{Entries: []refavro.MapEntry{{Key: "k1", Val: d}, {Key: "k2", Val: d2}}}, tail}}
 	}
-	return &refavro.Record{Fields: []any{d}}
+	return &refavro.Record{Fields: []any{d, tail}}
 }
 
 // deepTouch reads everything reachable from v (a corrupt value faults here, in the child).
